@@ -120,7 +120,13 @@ def _template(ctx, cfg):
         img.section('', sh_type=0)
         img.section('.dynstr', sh_type=3, sh_offset=stroff, sh_size=len(DYNSTR), sh_addr=addr(stroff), sh_flags=2)                       # 1
         img.section('.dynsym', sh_type=11, sh_offset=symoff, sh_size=k * symsz, sh_entsize=symsz, sh_link=1, sh_addr=addr(symoff))     # 2
-        img.section('.dynamic', sh_type=6, sh_offset=secdyn_off, sh_size=dyn_filesz, sh_entsize=dynsz, sh_link=1, sh_addr=addr(secdyn_off))  # 3
+        if variant != 'nodynsec':
+            img.section('.dynamic', sh_type=6, sh_offset=secdyn_off, sh_size=dyn_filesz, sh_entsize=dynsz, sh_link=1, sh_addr=addr(secdyn_off))  # 3
+        if cfg.get('decoy_dynstr'):
+            # section names need not be unique: a second, unrelated string table that is also called .dynstr (the table the dynamic
+            # entries use is the one designated by sh_link / DT_STRTAB, never one found by name)
+            decoy = [0] + [0x7a] * (len(DYNSTR) - 2) + [0]
+            img.section('.dynstr', sh_type=3, sh_offset=img.blob(decoy), sh_size=len(decoy))
         img.add_shstrtab()
     # e_phentsize may exceed the size of the structure (entries padded): the program header table is walked with that stride
     data = img.build(phentsize=L.sizeof('PHDR', cls) + cfg['phslack']) if cfg.get('phslack') else img.build()
@@ -217,7 +223,10 @@ def h_dynamic(ctx):
     ctx.check('segment/get_symbol_by_name/absent', seg.get_symbol_by_name('nope') is None)
     if variant != 'stripped':
         sec = elf.get_section_by_name('.dynamic')
-        ctx.check('section/present', sec is not None and type(sec).__name__ == 'DynamicSection')
+        if variant == 'nodynsec':
+            ctx.check('section/absent', sec is None)
+        else:
+            ctx.check('section/present', sec is not None and type(sec).__name__ == 'DynamicSection')
         if sec is not None:
             _check_dynamic(ctx, sec, exp, 'section/%s' % variant)
             # section view == segment view, entry for entry
@@ -284,6 +293,9 @@ def _instances(tier):
             # two PT_LOAD segments, the dynamic tables at the very start of the second one
             out.append(dict(elfclass=cls, little=little, variant=variant, hash='gnu' if cls == 64 else 'sysv', rela=(cls == 64), rpath=True, symstr=1, layout='split'))
         out.append(dict(elfclass=cls, little=little, variant='stripped', hash='sysv', rela=(cls == 64), rpath=True, symstr=0, phslack=8))
+        for variant in ('sections', 'shifted', 'nodynsec'):
+            out.append(dict(elfclass=cls, little=little, variant=variant, hash='sysv' if cls == 64 else 'gnu', rela=(cls == 64), rpath=True, symstr=0, decoy_dynstr=True))
+        out.append(dict(elfclass=cls, little=little, variant='nodynsec', hash='gnu' if cls == 64 else 'sysv', rela=(cls == 64), rpath=True, symstr=1))
         out.append(dict(elfclass=cls, little=little, variant='stripped', hash='gnu', rela=(cls == 64), rpath=True, symstr=0, dupnames=True))
         out.append(dict(elfclass=cls, little=little, variant='sections', hash='sysv', rela=(cls == 64), rpath=True, symstr=0, dupnames=True))
         out.append(dict(elfclass=cls, little=little, variant='stripped', hash='gnu', rela=True, rpath=True, symstr=0, both_flavours=True))
